@@ -272,50 +272,56 @@ func (pp *predicatesPlugin) checkMaxPodsWithGpuGroupReservation(
 		return common_info.NewFitError(task.Name, task.Namespace, node.Name, api.NodePodNumberExceeded)
 	}
 
-	needsNewGpuGroup := pp.willCreateNewGpuGroup(task, node)
-	if !needsNewGpuGroup {
+	newGpuGroups := pp.numNewGpuGroups(task, node)
+	if newGpuGroups == 0 {
 		return nil
 	}
 
-	if availablePods < 2 {
+	// one slot for the task itself and one reservation pod per new GPU group
+	if availablePods < float64(1+newGpuGroups) {
 		return common_info.NewFitError(task.Name, task.Namespace, node.Name, api.NodePodNumberExceeded)
 	}
 
 	return nil
 }
 
-// willCreateNewGpuGroup determines if allocating this task will create a new GPU group
-// (and thus require a new reservation pod).
-func (pp *predicatesPlugin) willCreateNewGpuGroup(task *pod_info.PodInfo, node *node_info.NodeInfo) bool {
+// numNewGpuGroups returns how many new GPU groups allocating this task will create
+// (each requires a new reservation pod).
+func (pp *predicatesPlugin) numNewGpuGroups(task *pod_info.PodInfo, node *node_info.NodeInfo) int {
+	allNew := int(task.ResReq.GetNumOfGpuDevices())
+	if allNew < 1 {
+		allNew = 1
+	}
 	if pp.ssn == nil {
-		return true
+		return allNew
 	}
 
 	fittingGPUs := pp.ssn.FittingGPUs(node, task)
 	gpuForSharingImmediate := gpu_sharing.GetNodePreferableGpuForSharing(fittingGPUs, node, task, false)
 
 	if gpuForSharingImmediate != nil && !gpuForSharingImmediate.IsReleasing {
-		return containsNewGpuGroup(gpuForSharingImmediate.Groups)
+		return countNewGpuGroups(gpuForSharingImmediate.Groups)
 	}
 
 	gpuForSharingPipelined := gpu_sharing.GetNodePreferableGpuForSharing(fittingGPUs, node, task, true)
 
 	if gpuForSharingPipelined != nil {
-		return containsNewGpuGroup(gpuForSharingPipelined.Groups)
+		return countNewGpuGroups(gpuForSharingPipelined.Groups)
 	}
 
-	// No GPU assignment possible - conservatively assume new group would be needed
-	return true
+	// No GPU assignment possible - conservatively assume every device needs a new group
+	return allNew
 }
 
-// containsNewGpuGroup checks if any of the GPU groups is a newly created one (UUID format).
-func containsNewGpuGroup(groups []string) bool {
+// countNewGpuGroups counts the GPU groups that are newly created ones (UUID format).
+func countNewGpuGroups(groups []string) int {
+	count := 0
 	for _, gpuGroup := range groups {
 		if isNewGpuGroup(gpuGroup) {
-			return true
+			count++
 		}
 	}
-	return false
+	return count
 }
 
 // isNewGpuGroup determines if a GPU group ID represents a new group (UUID) vs an existing one (numeric).
